@@ -210,17 +210,17 @@ CLAIMS.update({
         'technique': 'Lean 4 proof (case characterisation of write; invariants of parked calls and of the gate by induction over op lists) + model/implementation differential replay of a direct-driven real Association + executable predicates + e2e exploration',
     },
     'C06': {
-        'text': 'API-visible half (DCEP, retransmission policies) proved; receive half (at most once, intact, subsequence) by exploration + Reasm. Lean theorems: C06_dcep_reliable_ordered '
-                '(packetize clears the U flag for PPI 50 on every fragment whatever the stream setting; checkPartialReliabilityStatus never marks a DCEP chunk; an accepted DCEP write queues '
-                'ordered chunks only); C06_abandon_decision (Sender.checkPR = the decision written with the regenerated conditions: nSent >= value, elapsed since the FIRST transmission >= value, '
-                'DCEP / not-negotiated / unknown-stream exempt; abandoned() = marked AND all fragments in flight); C06_abandoned_skipped (T3 marking, miss indications, fast retransmission, '
-                'RACK after SACK, RACK timer, PTO, both advance loops test abandoned() as the regenerated sites do; getDataPacketsToRetransmit has no such test); for ALL operation lists that do '
-                'not re-open / re-configure the stream: C06_rexmit_bound (limit N: every ending fragment - so every unfragmented message - in flight or put on the wire by any gather has '
-                'nSent <= N+1; the bound is tight), C06_rexmit_bound_fragmented_partial (every fragment: transmitted N times => message marked; the N+1 bound fails for non-final fragments '
-                'while the tail is pending: C06_D14_witness, known finding D14), C06_abandoned_at_most_once_more (all policies: once a message is abandoned() each of its chunks is transmitted '
-                'at most once more, only through a retransmission mark set before), C06_timed_bound_partial (lifetime L: a transmission L ms or more after the first marks the message; with '
-                'the previous theorem at most TWO transmissions after expiry, at most one when no mark is pending; the statement\'s "at most one" is false: C06_D21_witness, known finding D21: '
-                'getDataPacketsToRetransmit does not skip abandoned chunks). Plus the predicate PolicySpec on every DATA chunk of every gather of both direct-drive harnesses, DCEP-ORDERED / '
+        'text': 'API-visible half (DCEP, retransmission policies) proved; receive half (at most once, intact, subsequence) by exploration + Reasm (+ the wire theorems of Props/C06wire.lean). '
+                'Lean theorems (Props/C06.lean): C06_dcep_reliable_ordered (packetize clears the U flag for PPI 50 on every fragment whatever the stream setting; '
+                'checkPartialReliabilityStatus never marks a DCEP chunk; an accepted DCEP write queues ordered chunks only); C06_abandon_decision (Sender.checkPR = the decision written with '
+                'the regenerated conditions: nSent >= value, elapsed since the FIRST transmission >= value, DCEP / not-negotiated / unknown-stream exempt; abandoned() = marked AND all fragments '
+                'in flight); C06_abandoned_skipped (T3 marking, miss indications, fast retransmission, the T3-path retransmission gather (since 6ddfdda), RACK after SACK, RACK timer, PTO, both '
+                'advance loops test abandoned() as the regenerated sites do); for ALL operation lists that do not re-open / re-configure the stream: C06_rexmit_bound (limit N: every ending '
+                'fragment - so every unfragmented message - in flight or put on the wire by any gather has nSent <= max(1,N) <= N+1), C06_rexmit_bound_fragmented_partial (every fragment: '
+                'transmitted N times => message marked; the bound fails for non-final fragments while the tail is pending: C06_D14_witness, known finding D14), '
+                'C06_abandoned_never_retransmitted (all policies: once a message is abandoned() the transmission counter of its chunks never moves again), C06_timed_bound (lifetime L: a '
+                'transmission L ms or more after the first makes the message marked, for an ending fragment abandoned(): it is the last one), C06_D21_fixed (the scenario that gave a second '
+                'transmission after expiry before commit 6ddfdda). Plus the predicate PolicySpec on every DATA chunk of every gather of both direct-drive harnesses, DCEP-ORDERED / '
                 'DCEP-RELIABLE on the stream-API harness, and the e2e pr / transfer / api scenarios with the history predicates for the receive half.',
         'note': API_NOTE + ' Bounds are stated on nSent, the transmission ordinal the model stamps on every chunk it puts in a packet (compared with the implementation per chunk and gather). '
                 'The policy must be in force: FORWARD-TSN negotiated, stream in the association table, policy not changed during the run.',
